@@ -7,6 +7,7 @@ pub mod c05;
 pub mod c07;
 pub mod c08;
 pub mod c09;
+pub mod c10;
 pub mod c11;
 pub mod c12;
 pub mod c13;
@@ -15,7 +16,7 @@ pub mod c15;
 pub mod c20;
 
 pub fn all() -> Vec<Property> {
-    vec![c01::property(), c02::property(), c03::property(), c04::property(), c05::property(), c07::property(), c08::property(), c09::property(), c11::property(), c12::property(), c13::property(), c14::property(), c15::property(), c20::property()]
+    vec![c01::property(), c02::property(), c03::property(), c04::property(), c05::property(), c07::property(), c08::property(), c09::property(), c10::property(), c11::property(), c12::property(), c13::property(), c14::property(), c15::property(), c20::property()]
 }
 pub fn get(id: &str) -> Option<Property> {
     all().into_iter().find(|p| p.id == id)
